@@ -19,7 +19,8 @@ log   := [[sym, [[units]…], [units]]…]
    k-th call of this operation; null = it raised),"parses":[[sym,[units],[T…]|null]…] (the real parser's answers),
    "fuel":n}
         → {"tree":T,"log":L' (oldest first, the calls of this operation only),"installs":[[path syms, T]…],
-           "inv":bool,"srcok":bool,"installs_ok":bool}
+           "inv0":bool,"srcok0":bool (the input tree, with the calls before),
+           "inv":bool,"srcok":bool (the result, with all calls),"installs_ok":bool}
         | {"err":kind}
         the whole of DerivationTree.replace_multiple (Model/GenReplace.lean `replaceTop`)
   {"op":"srcok","spec":S,"path":[…],"tree":T} → {"ok":bool}
@@ -168,6 +169,7 @@ def handle (j : Json) : Except String Json := do
       let instOk := o.inst.all (fun i => genInvB S o.log i.1 i.2 && srcOKB S i.1 i.2)
       return Json.mkObj [("tree", jGTree o.tree), ("log", Json.arr (calls.map jEntry).toArray),
         ("installs", Json.arr (o.inst.map (fun i => Json.arr #[Json.arr (i.1.map Json.str).toArray, jGTree i.2])).toArray),
+        ("inv0", Json.bool (genInvB S log0 [] t)), ("srcok0", Json.bool (srcOKB S [] t)),
         ("inv", Json.bool (genInvB S o.log [] o.tree)), ("srcok", Json.bool (srcOKB S [] o.tree)),
         ("installs_ok", Json.bool instOk)]
   | _ => throw s!"unknown op {op}"
